@@ -95,36 +95,54 @@ Inductive verdict : Type :=
 | BuildTime      (* the closure takes a context but is called by Compile, on objects of that call *)
 | Unreviewed.    (* not in the table: counts as a store into shared data                          *)
 
-(* every effect found on the unchanged tree, in the extractor's order (sorted by function, kind, path) *)
+(* every effect found on the unchanged tree, in the extractor's order (sorted by scope, kind, path).
+   Since round 5 an effect carries the SCOPE in which it was found (the package, and whether the code is a
+   run-time closure of a constructor) instead of the function's name: renaming a private function or moving
+   a statement from one function into another leaves the table as it is.  The functions are listed in the
+   comments (and beside every effect in Gen/C09Effects.v, run_path_effects_named, so that a broken agreement
+   names the function); a link or a mention of a package-level variable is listed once per scope however
+   many functions have it, a store once per function that has it. *)
 Definition reviewed_effects : list (effect * verdict) := [
-  (Eff "callbacks:manager.withRunInfo"%string "link"%string CRecord "manager.globalHandlers <- manager.globalHandlers"%string, ReadOnly);
-  (Eff "callbacks:manager.withRunInfo"%string "link"%string CRecord "manager.handlers <- manager.handlers"%string, ReadOnly);
-  (Eff "callbacks:manager.withRunInfo"%string "link"%string CRecord "manager.runInfo <- param(*RunInfo)"%string, ReadOnly);
-  (Eff "callbacks:managerFromCtx"%string "link"%string CCaptured "manager.globalHandlers <- ctx.Value().globalHandlers"%string, ReadOnly);
-  (Eff "callbacks:managerFromCtx"%string "link"%string CCaptured "manager.handlers <- ctx.Value().handlers"%string, ReadOnly);
-  (Eff "callbacks:managerFromCtx"%string "link"%string CCaptured "manager.runInfo <- ctx.Value().runInfo"%string, ReadOnly);
-  (Eff "callbacks:newManager"%string "link"%string CRecord "manager.handlers <- param(...Handler)"%string, ReadOnly);
-  (Eff "callbacks:newManager"%string "link"%string CRecord "manager.runInfo <- param(*RunInfo)"%string, ReadOnly);
-  (Eff "callbacks:newManager"%string "pkgvar"%string CPkg "GlobalHandlers"%string, ReadOnly);
-  (Eff "checkPointer.convertCheckPoint"%string "assign"%string CParam "param(map[string]any)[]"%string, CallersLocal);
-  (Eff "checkPointer.restoreCheckPoint"%string "assign"%string CParam "param(map[string]any)[]"%string, CallersLocal);
-  (Eff "convert"%string "pkgvar"%string CPkg "mappedFragmentConvertPair"%string, ReadOnly);
-  (Eff "graphNode.beforeChildGraphCompile$closure"%string "assign"%string CRecord "captured(parameter key2SubGraphs)[]"%string, BuildTime);
-  (Eff "host:addHostAgent$closure"%string "link"%string CParam "state.msgs <- param([]*schema.Message)"%string, ReadOnly);
-  (Eff "isMappedFragment"%string "pkgvar"%string CPkg "mappedFragmentConvertPair"%string, ReadOnly);
-  (Eff "pairWrittenToTarget"%string "pkgvar"%string CPkg "mappedFragmentConvertPair"%string, ReadOnly);
-  (Eff "restore"%string "pkgvar"%string CPkg "mappedFragmentConvertPair"%string, ReadOnly);
-  (Eff "runner.createTasks"%string "link"%string CRecord "task.call <- runner.chanSubscribeTo[]"%string, ReadOnly);
-  (Eff "runner.handleInterrupt"%string "link"%string CCaptured "checkpoint.State <- ctx.Value().state"%string, ReadOnly);
-  (Eff "runner.handleInterruptWithSubGraphAndRerunNodes"%string "link"%string CCaptured "checkpoint.State <- ctx.Value().state"%string, ReadOnly);
-  (Eff "runner.initChannelManager"%string "link"%string CRecord "channelManager.edgeHandlerManager <- runner.edgeHandlerManager"%string, ReadOnly);
-  (Eff "runner.initChannelManager"%string "link"%string CRecord "channelManager.preNodeHandlerManager <- runner.preNodeHandlerManager"%string, ReadOnly);
-  (Eff "runner.initChannelManager"%string "link"%string CRecord "channelManager.successors <- runner.successors"%string, ReadOnly);
-  (Eff "runner.initTaskManager"%string "link"%string CRecord "taskManager.needAll <- runner.eager"%string, ReadOnly);
-  (Eff "runner.initTaskManager"%string "link"%string CRecord "taskManager.opts <- param(...Option)"%string, ReadOnly);
-  (Eff "runner.initTaskManager"%string "link"%string CRecord "taskManager.runWrapper <- param(runnableCallWrapper)"%string, ReadOnly);
-  (Eff "runner.restoreTasks"%string "link"%string CRecord "task.call <- runner.chanSubscribeTo[]"%string, ReadOnly);
-  (Eff "runner.restoreTasks"%string "link"%string CParam "task.option <- param(map[string][]any)[]"%string, ReadOnly)
+  (* callbacks:managerFromCtx *)
+  (Eff "callbacks"%string "link"%string CCaptured "manager.globalHandlers <- ctx.Value().globalHandlers"%string, ReadOnly);
+  (* callbacks:manager.withRunInfo *)
+  (Eff "callbacks"%string "link"%string CRecord "manager.globalHandlers <- manager.globalHandlers"%string, ReadOnly);
+  (* callbacks:managerFromCtx *)
+  (Eff "callbacks"%string "link"%string CCaptured "manager.handlers <- ctx.Value().handlers"%string, ReadOnly);
+  (* callbacks:manager.withRunInfo *)
+  (Eff "callbacks"%string "link"%string CRecord "manager.handlers <- manager.handlers"%string, ReadOnly);
+  (* callbacks:AppendHandlers, InitCallbacks *)
+  (Eff "callbacks"%string "link"%string CRecord "manager.handlers <- param(...Handler)"%string, ReadOnly);
+  (* callbacks:managerFromCtx *)
+  (Eff "callbacks"%string "link"%string CCaptured "manager.runInfo <- ctx.Value().runInfo"%string, ReadOnly);
+  (* callbacks:AppendHandlers, InitCallbacks, ReuseHandlers *)
+  (Eff "callbacks"%string "link"%string CRecord "manager.runInfo <- param(*RunInfo)"%string, ReadOnly);
+  (* callbacks:newManager *)
+  (Eff "callbacks"%string "pkgvar"%string CPkg "GlobalHandlers"%string, ReadOnly);
+  (* checkPointer.convertCheckPoint *)
+  (Eff "compose"%string "assign"%string CParam "param(map[string]any)[]"%string, CallersLocal);
+  (* checkPointer.restoreCheckPoint *)
+  (Eff "compose"%string "assign"%string CParam "param(map[string]any)[]"%string, CallersLocal);
+  (* runner.initChannelManager *)
+  (Eff "compose"%string "link"%string CRecord "channelManager.edgeHandlerManager <- runner.edgeHandlerManager"%string, ReadOnly);
+  (* runner.initChannelManager *)
+  (Eff "compose"%string "link"%string CRecord "channelManager.preNodeHandlerManager <- runner.preNodeHandlerManager"%string, ReadOnly);
+  (* runner.initChannelManager *)
+  (Eff "compose"%string "link"%string CRecord "channelManager.successors <- runner.successors"%string, ReadOnly);
+  (* runner.handleInterrupt, runner.handleInterruptWithSubGraphAndRerunNodes *)
+  (Eff "compose"%string "link"%string CCaptured "checkpoint.State <- ctx.Value().state"%string, ReadOnly);
+  (* runner.createTasks, runner.restoreTasks *)
+  (Eff "compose"%string "link"%string CRecord "task.call <- runner.chanSubscribeTo[]"%string, ReadOnly);
+  (* runner.initTaskManager *)
+  (Eff "compose"%string "link"%string CRecord "taskManager.needAll <- runner.eager"%string, ReadOnly);
+  (* runner.invoke, runner.run, runner.transform *)
+  (Eff "compose"%string "link"%string CRecord "taskManager.opts <- param(...Option)"%string, ReadOnly);
+  (* convert, isMappedFragment, pairWrittenToTarget, restore *)
+  (Eff "compose"%string "pkgvar"%string CPkg "mappedFragmentConvertPair"%string, ReadOnly);
+  (* graphNode.beforeChildGraphCompile$closure *)
+  (Eff "compose$closure"%string "assign"%string CRecord "captured(parameter key2SubGraphs)[]"%string, BuildTime);
+  (* host:addHostAgent$closure *)
+  (Eff "host$closure"%string "link"%string CParam "state.msgs <- param([]*schema.Message)"%string, ReadOnly)
 
 ].
 
